@@ -39,6 +39,7 @@ import (
 	"github.com/LemoFoundationLtd/lemochain-core/common"
 	"github.com/LemoFoundationLtd/lemochain-core/common/crypto"
 	"github.com/LemoFoundationLtd/lemochain-core/common/crypto/ecies"
+	"github.com/LemoFoundationLtd/lemochain-core/common/rlp"
 	"github.com/LemoFoundationLtd/lemochain-core/network"
 	"github.com/LemoFoundationLtd/lemochain-core/network/p2p"
 
@@ -904,6 +905,96 @@ func (e *c15Env) finish(cli *simConn) {
 	}
 }
 
+// dialOut: the node is the DIALLING side (it connects to an address learnt from discovery or the deputy list) and the
+// remote is hostile: it answers the node's genuine authentication request with a response that is correctly framed
+// and correctly encrypted for the node's key (the request tells the server that key) but whose content is absurd.
+func (e *c15Env) dialOut(k int) {
+	c := e.c
+	name := fmt.Sprintf("dial%d", k)
+	hostile := detKey(fmt.Sprintf("hostile-server%d", k))
+	var hid p2p.NodeID
+	copy(hid[:], hostile.NodeID)
+	e.logf("--- connection %s (the node dials a hostile server) ---", name)
+	e.cur = "dial-out"
+	atk, nodeEnd := newSimConnPair(c, name, c.Draw("dial", 3))
+	e.conns = append(e.conns, atk)
+	e.nConn++
+	c.W.Spawn(e.nn.Tag, "srv.dial."+name, func() { e.nn.Srv.HandleConn(nodeEnd, &hid) })
+	e.settle()
+	req := atk.take()
+	if len(req) < 7 {
+		c.Probe("dial_out_no_request_seen")
+		atk.Close()
+		e.settle()
+		return
+	}
+	plain, err := ecies.ImportECDSA(hostile.Key).Decrypt(req[6:], nil, nil)
+	var ar c15AuthReq
+	if err != nil || rlp.DecodeBytes(plain, &ar) != nil {
+		c.Probe("dial_out_request_not_understood")
+		atk.Close()
+		e.settle()
+		return
+	}
+	cliPub := crypto.ToECDSAPub(append([]byte{4}, ar.ClientPubKey[:]...))
+	if cliPub == nil || cliPub.X == nil {
+		c.Probe("dial_out_request_not_understood")
+		atk.Close()
+		e.settle()
+		return
+	}
+	good := detKey(fmt.Sprintf("hostile-random%d", k))
+	type authResp struct {
+		RandomPubKey [64]byte
+		RespNonce    [32]byte
+	}
+	resp := &authResp{}
+	copy(resp.RandomPubKey[:], good.NodeID) // a valid curve point (X||Y)
+	copy(resp.RespNonce[:], e.randBytes("dial", 32))
+	var body []byte
+	kind := ""
+	switch c.Draw("dial", 7) {
+	case 0:
+		kind = "valid-response"
+		body = mustRlp(resp)
+	case 1:
+		kind = "random-public-key-all-zero"
+		resp.RandomPubKey = [64]byte{}
+		body = mustRlp(resp)
+	case 2:
+		kind = "random-public-key-off-curve"
+		resp.RandomPubKey[63] ^= 1
+		body = mustRlp(resp)
+	case 3:
+		kind = "response-not-rlp"
+		body = e.randBytes("dial", 40+c.Draw("dial", 100))
+	case 4:
+		kind = "response-truncated-rlp"
+		body = mustRlp(resp)
+		body = body[:1+c.Draw("dial", len(body)-1)]
+	case 5:
+		kind = "response-empty"
+		body = nil
+	default:
+		kind = "random-public-key-random-bytes"
+		copy(resp.RandomPubKey[:], e.randBytes("dial", 64))
+		body = mustRlp(resp)
+	}
+	c.Fault("dial-out-hostile-server-" + kind)
+	ct, err := ecies.Encrypt(crand.Reader, ecies.ImportECDSAPublic(cliPub), body, nil, nil)
+	if err != nil {
+		atk.Close()
+		e.settle()
+		return
+	}
+	e.send(atk, "hostile server's handshake response ("+kind+")", append(frameHeader(uint32(len(ct))), ct...))
+	e.settle()
+	e.sleep(time.Second)
+	if !e.panicked() {
+		e.finish(atk)
+	}
+}
+
 func (e *c15Env) attack(k int) {
 	c := e.c
 	name := fmt.Sprintf("atk%d", k)
@@ -1328,6 +1419,10 @@ func c15Scenario(c *Ctx) {
 
 	nAtk := 1 + c.Draw("gen", 3)
 	for k := 0; k < nAtk && !e.panicked() && !c.Failed(); k++ {
+		if c.Draw("dial", 8) == 7 {
+			e.dialOut(k)
+			continue
+		}
 		e.attack(k)
 	}
 	if !e.panicked() {
